@@ -17,8 +17,10 @@ def ws(tier, k=1):
     return QW + ([6, 7, 9, 16, 24, 31, 32, 33, 63, 64, 65] if k <= 2 else [16, 32, 33, 64])
 
 
-def prod(tier, keys, filt=None, extra=None, small=False, stretch=True):
+def prod(tier, keys, filt=None, extra=None, small=False, stretch=True, heavy=False):
     base = ws(tier, len(keys))
+    if heavy and tier != 'quick':
+        base = QW + [16]          # dividers: bit-blasted division beyond 16 bits costs minutes per configuration
     if small and tier == 'quick':
         base = [1, 2, 3, 4, 8]
     out = []
@@ -137,7 +139,7 @@ block('Abs', props=('C07',), file='py4hw/logic/arithmetic.py', make=_mk_abs, spe
 block('SignedDiv', props=('C07',), file='py4hw/logic/arithmetic.py', make=_mk2(A.SignedDiv),
       requires=lambda c, I: [ne(I['b'], 0)],
       spec=lambda c, I, W: {'r': truncdiv(sx(I['a'], c['a']), sx(I['b'], c['b']))},
-      cfgs=lambda t: prod(t, ['a', 'b', 'r'], small=True, stretch=False))
+      cfgs=lambda t: prod(t, ['a', 'b', 'r'], small=True, stretch=False, heavy=True))
 
 # single-leaf blocks at block level (constructor + leaf contract; statement-level reading)
 block('Sub', props=('C07',), file='py4hw/logic/arithmetic.py', make=_mk2(A.Sub),
@@ -147,9 +149,9 @@ block('Mul', props=('C07',), file='py4hw/logic/arithmetic.py', make=_mk2(A.Mul),
 block('SignedMul', props=('C07',), file='py4hw/logic/arithmetic.py', make=_mk2(A.SignedMul),
       spec=lambda c, I, W: {'r': mul(sx(I['a'], c['a']), sx(I['b'], c['b']))}, cfgs=lambda t: prod(t, ['a', 'b', 'r'], small=True, stretch=False))
 block('Div', props=('C07',), file='py4hw/logic/arithmetic.py', make=_mk2(A.Div), requires=lambda c, I: [ne(I['b'], 0)],
-      spec=lambda c, I, W: {'r': fdiv(I['a'], I['b'])}, cfgs=lambda t: prod(t, ['a', 'b', 'r'], small=True, stretch=False))
+      spec=lambda c, I, W: {'r': fdiv(I['a'], I['b'])}, cfgs=lambda t: prod(t, ['a', 'b', 'r'], small=True, stretch=False, heavy=True))
 block('Mod', props=('C07',), file='py4hw/logic/arithmetic.py', make=_mk2(A.Mod), requires=lambda c, I: [ne(I['b'], 0)],
-      spec=lambda c, I, W: {'r': mod(I['a'], I['b'])}, cfgs=lambda t: prod(t, ['a', 'b', 'r'], small=True, stretch=False))
+      spec=lambda c, I, W: {'r': mod(I['a'], I['b'])}, cfgs=lambda t: prod(t, ['a', 'b', 'r'], small=True, stretch=False, heavy=True))
 block('SignExtend', props=('C07',), file='py4hw/logic/arithmetic.py', make=_mk1(A.SignExtend),
       spec=lambda c, I, W: {'r': sx(I['a'], c['a'])}, cfgs=lambda t: prod(t, ['a', 'r']))
 block('ZeroExtend', props=('C07',), file='py4hw/logic/arithmetic.py', make=_mk1(A.ZeroExtend),
